@@ -132,6 +132,110 @@ func c10TS(c *Ctx, r *report.Run, w *ws.Workspace, units []rt.JobUnit) error {
 			r.Case(cellBase, "client_error_carries_status_and_body", true)
 		}
 	}
+	// TS client: the canned-response family - every failure status x every kind of body a server or an error hook may send.
+	// Whatever arrives, the call must reject with one of the two documented error types: ValidationError (400 whose body lists
+	// violations, same violations) or ApiError (same status, same body); never with anything else (TypeError, SyntaxError).
+	{
+		type canned struct {
+			er             *rt.ErrResp
+			status         int
+			kind, body, ct string
+		}
+		bodies := [][3]string{
+			{"violations", `{"violations":[{"field":"a.b","description":"d1"},{"field":"X-Hdr","description":"d2"}]}`, "application/json"},
+			{"no_violations", `{"violations":[]}`, "application/json"},
+			{"error_message", `{"message":"boom"}`, "application/json"},
+			{"empty_object", `{}`, "application/json"},
+			{"json_null", `null`, "application/json"},
+			{"json_array", `[1,2]`, "application/json"},
+			{"plain_text", `upstream said no`, "text/plain"},
+			{"broken_json", `{"violations":`, "application/json"},
+			{"empty", ``, ""},
+		}
+		cn := map[string]canned{}
+		var cops []any
+		var ks []string
+		for k := range firstOfRPC {
+			ks = append(ks, k)
+		}
+		sort.Strings(ks)
+		seenUnit := map[string]bool{}
+		for _, k := range ks {
+			er := firstOfRPC[k]
+			if seenUnit[er.Unit] {
+				continue // one RPC per unit: handleError is one function per emitted module
+			}
+			seenUnit[er.Unit] = true
+			client, _ := tsModules(w.Unit(er.Unit))
+			for _, st := range []int{400, 401, 404, 409, 418, 422, 500, 503} {
+				for _, b := range bodies {
+					id := fmt.Sprintf("canned|%s|%d|%s", k, st, b[0])
+					cn[id] = canned{er, st, b[0], b[1], b[2]}
+					hs := map[string]string{}
+					if b[2] != "" {
+						hs["Content-Type"] = b[2]
+					}
+					cops = append(cops, map[string]any{"op": "client_finish", "id": id, "client": client, "svc": er.Svc, "rpc": er.RPC, "reqObj": er.ReqObj,
+						"resp": map[string]any{"status": st, "headers": hs, "bodyB64": base64.StdEncoding.EncodeToString([]byte(b[1]))}})
+				}
+			}
+		}
+		cres, err := runNode(c, w, cops)
+		if err != nil {
+			return err
+		}
+		var ids []string
+		for id := range cn {
+			ids = append(ids, id)
+		}
+		sort.Strings(ids)
+		for _, id := range ids {
+			cc := cn[id]
+			a, ok := cres[id]
+			if !ok || str(a, "error") != "" {
+				continue
+			}
+			r.Evaluations++
+			cellBase := fmt.Sprintf("%s,rpc=%s.%s,side=ts_client,status=%d", w.Unit(cc.er.Unit).Spec.Cell, cc.er.Svc, cc.er.RPC, cc.status)
+			cell := cellBase + "#canned:" + cc.kind
+			th, thrown := a["thrown"].(map[string]any)
+			if !thrown {
+				r.Violate(cell, "client_error_type", fmt.Sprintf("TS client: status %d with body %q produced no error (result %v)", cc.status, cc.body, a["result"]), cc)
+				continue
+			}
+			name := fmt.Sprint(th["name"])
+			status := -1
+			if n, ok := th["statusCode"].(json.Number); ok {
+				i, _ := n.Int64()
+				status = int(i)
+			}
+			switch name {
+			case "ValidationError":
+				var sv struct {
+					Violations []tsViolation `json:"violations"`
+				}
+				json.Unmarshal([]byte(cc.body), &sv)
+				var cv []tsViolation
+				b, _ := json.Marshal(th["violations"])
+				json.Unmarshal(b, &cv)
+				if cc.status != 400 || (cc.kind != "violations" && cc.kind != "no_violations") || violKey(cv) != violKey(sv.Violations) {
+					r.Violate(cell, "client_error_type", fmt.Sprintf("TS client: status %d with body %q became a ValidationError with violations %v", cc.status, cc.body, cv), cc)
+				} else {
+					r.Case(cellBase, "client_validation_error", true)
+				}
+			case "ApiError":
+				if status != cc.status || fmt.Sprint(th["body"]) != cc.body {
+					r.Violate(cell, "client_error_content", fmt.Sprintf("TS client: ApiError carries status %d body %q, the server answered %d %q", status, short(fmt.Sprint(th["body"]), 80), cc.status, cc.body), cc)
+				} else if cc.status == 400 && cc.kind == "violations" {
+					r.Violate(cell, "client_error_type", "TS client: a 400 listing violations became an ApiError", cc)
+				} else {
+					r.Case(cellBase, "client_error_carries_status_and_body", true)
+				}
+			default:
+				r.Violate(cell, "client_error_type", fmt.Sprintf("TS client: status %d with body %q rejected with %s: %v (neither ValidationError nor ApiError)", cc.status, cc.body, name, th["message"]), cc)
+			}
+		}
+	}
 	// TS server: a failing handler
 	ops = nil
 	var keys []string
